@@ -19,20 +19,47 @@ DriverClaim == (R.kind = "text" /\ R.hasClaim) => LET lx == Lex(R.s) IN ~lx.err 
 \* (metadata names and values are compared without the blanks around them, see Lexer!Trim)
 NormMeta(m) == [j \in 1..Len(m) |-> <<Trim(m[j][1]), Trim(m[j][2])>>]
 NormItems(items) == [i \in 1..Len(items) |-> [items[i] EXCEPT !.meta = NormMeta(@)]]
+\* Texts with one of the characters the statements do not name (Lexer!ExoticChars: the other Unicode blanks, invisible
+\* characters, digits of other scripts).  What such a character IS is open -- a blank (the pinned code's reading of most of
+\* them), an ordinary character of a symbol or a text, something skipped -- but under every reading the rest of C04 holds:
+\* the text is a sentence or it is refused, the tree lists what was written, and no suffix is silently dropped.  So a text
+\* with ONE such character (however often) is judged under three readings: the model's own, the character as an ordinary
+\* letter (233), the character as a space -- or refused outright; the observation must be what one of them says.  (With several different such
+\* characters the readings multiply: termination only.)
+ExoSet(s) == {s[i] : i \in {j \in 1..Len(s) : s[j] \in ExoticChars}}
+Sub(s, c, d) == [i \in 1..Len(s) |-> IF s[i] = c THEN d ELSE s[i]]
+SubItem(it, c, d) == [it EXCEPT !.root = Sub(@, c, d), !.acc = Sub(@, c, d), !.sym = Sub(@, c, d), !.broot = Sub(@, c, d), !.bacc = Sub(@, c, d),
+                                !.vals = [j \in 1..Len(@) |-> <<Sub(@[j][1], c, d), Sub(@[j][2], c, d)>>],
+                                !.meta = [j \in 1..Len(@) |-> <<Sub(@[j][1], c, d), Sub(@[j][2], c, d)>>]]
+SubItems(items, c, d) == [i \in 1..Len(items) |-> SubItem(items[i], c, d)]
+Reading(s, items, accepted, c, d) ==          \* the observation is what the text says with c read as d
+  LET e == Expected(Sub(s, c, d)) IN
+  accepted = e.ok /\ (accepted => NormItems(SubItems(items, c, d)) = NormItems(e.items))
+ExoticOk(s, items, accepted) ==
+  LET X == ExoSet(s) IN
+  Cardinality(X) = 1 => LET c == CHOOSE x \in X : TRUE IN
+                        \/ ~accepted        \* (a fourth reading: a character that does not belong in chord text at all)
+                        \/ Reading(s, items, accepted, c, c) \/ Reading(s, items, accepted, c, 233) \/ Reading(s, items, accepted, c, 32)
 Inv == R.kind = "text" =>
          LET e == Expected(R.s) IN
          /\ R.terminated                                           \* no text makes the parser hang
          /\ (Exotic(R.s) \/ R.accepted = e.ok)                     \* accepted iff a sentence under the documented tokenisation
          /\ ((R.accepted /\ e.ok /\ ~Exotic(R.s)) => NormItems(R.items) = NormItems(e.items))   \* the tree lists exactly what was written, in order
+         /\ (Exotic(R.s) => ExoticOk(R.s, R.items, R.accepted))
          /\ (~R.accepted => R.exit # 0 /\ R.stderrLen > 0)         \* anything else is rejected with an error (what else a failing run prints is C09's business)
 \* long texts: k repetitions of a sentence (each a complete piece: the language is a list and the lexer modes are back at
 \* their start after a complete sentence and a newline, which ends a trailing comment -- LexerMC) followed by a suffix: accepted iff sentence + suffix is, with
 \* k x items(sentence) + items(suffix) entries in the tree
+LongReading(c, d) == LET b == Expected(Sub(R.base, c, d))  e == Expected(Sub(R.base \o <<10>> \o R.suffix, c, d)) IN
+                     b.ok /\ R.accepted = e.ok /\ (R.accepted => R.nitems = (R.reps - 1) * Len(b.items) + Len(e.items))
+LongExoticOk == LET X == ExoSet(R.base \o R.suffix) IN
+                Cardinality(X) = 1 => LET c == CHOOSE x \in X : TRUE IN ~R.accepted \/ LongReading(c, c) \/ LongReading(c, 233) \/ LongReading(c, 32)
 LongInv == R.kind = "long" =>
              LET b == Expected(R.base)  e == Expected(R.base \o <<10>> \o R.suffix) IN
              /\ b.ok                                     \* (the driver repeats a sentence)
              /\ R.terminated
              /\ (Exotic(R.base \o R.suffix) \/ R.accepted = e.ok)
+             /\ (Exotic(R.base \o R.suffix) => LongExoticOk)
              /\ (R.accepted /\ ~Exotic(R.base \o R.suffix) => R.nitems = (R.reps - 1) * Len(b.items) + Len(e.items))
              /\ (~R.accepted => R.stderrLen > 0)
 \* "The parser shipped is the one goyacc generates from that grammar file": the driver regenerated the parser with the
